@@ -583,8 +583,8 @@ func c18Run(c ttyCase) (fail *vlib.Failure, st c18Stats, herr error) {
 	vt := NewVT(c.Tab, c.Scrollback)
 	var ref *refTerm
 	active := false
-	consScrolls := 0         // one-line scrolls requested from the current console
-	deactivated := false     // the current console has been deactivated before
+	consScrolls := 0          // one-line scrolls requested from the current console
+	deactivated := false      // the current console has been deactivated before
 	scrolledInactive := false // ... and the terminal scrolled since
 
 	attach := func(d c18Dev) vlib.Caught {
@@ -812,7 +812,7 @@ func c18Classify(c ttyCase, s c18Stats) (bool, []string) {
 	}
 	nt := s.redrawAfterScroll > 0 || s.bufScrollsActive >= 3
 	if nt {
-		add("nontrivial")
+		add("nontrivial-" + c.Cons.Kind)
 	}
 	return nt, l
 }
